@@ -332,8 +332,8 @@ class Stream(meta(Iterable, metaclass=StreamMeta)):
 
     """
     def skipper(data):
-      for _ in xrange(int(round(n))):
-        next(data)
+      for _ in it.islice(data, max(int(round(n)), 0)):
+        pass
       for el in data:
         yield el
 
@@ -345,7 +345,7 @@ class Stream(meta(Iterable, metaclass=StreamMeta)):
     Enforces the Stream to finish after ``n`` items.
     """
     data = self._data
-    self._data = (next(data) for _ in xrange(int(round(n))))
+    self._data = it.islice(data, max(int(round(n)), 0))
     return self
 
   def __getattr__(self, name):
